@@ -89,8 +89,18 @@ def design_check(tier, stamp):
         ok = "Model checking completed. No error has been found." in out
         return {"shapes": names, "bounds": bounds, "ok": ok, "generated": gen, "distinct": dist, "errors": vlib.tlc_error(out)[:3]}
 
-    with ThreadPoolExecutor(max_workers=2) as ex:
+    def line_mc(_):
+        cfgtxt = ("SPECIFICATION Spec\nCONSTANTS\n  Texts <- MCTexts\n  Rounds = 2\n  ResetOnFlush = TRUE\n  MaxLen = %d\n"
+                  "INVARIANTS Faithful Prefix\nCHECK_DEADLOCK FALSE\n" % (3 if tier == "quick" else 4))
+        rc, out, wd = vlib.tlc(SPEC, "LineMC", cfg="LineRun.cfg", workers=4, timeout=2400, heap="6g", files={"LineRun.cfg": cfgtxt})
+        gen, dist = vlib.tlc_stats(out)
+        return {"shapes": ["line writer: all chunkings x 2 rounds"], "bounds": {}, "ok": "No error has been found" in out,
+                "generated": gen, "distinct": dist, "errors": vlib.tlc_error(out)[:3]}
+
+    with ThreadPoolExecutor(max_workers=3) as ex:
+        fl = ex.submit(line_mc, None)
         runs = list(ex.map(one, DESIGN_BOUNDS[tier]))
+        runs.append(fl.result())
     return {"ok": all(r["ok"] for r in runs), "generated": sum(r["generated"] for r in runs), "distinct": sum(r["distinct"] for r in runs),
             "runs": runs, "stamp": stamp, "errors": [e for r in runs for e in r["errors"]][:4]}
 
@@ -346,7 +356,7 @@ def harness_cases(tier, sd):
 
 
 def to_p_line(t):
-    drop = ("msg", "reason", "line", "changed", "out", "point", "label", "hit", "err_gc")
+    drop = ("msg", "reason", "changed", "out", "point", "label", "hit", "err_gc")
     ev = []
     for e in t["events"]:
         if e["ev"] in ("HarnessError", "ChildError"):
@@ -425,6 +435,18 @@ def pipeline(tier):
     with ThreadPoolExecutor(max_workers=nsh) as ex:
         for r in ex.map(shard, range(nsh)):
             traces.extend(r)
+    # the line writer driven directly (C18): every chunking of every short text, one and more rounds
+    lwout = os.path.join(wd, "traces-lw.ndjson")
+    open(lwout, "w").close()
+    p = vlib.run_cmd([binary, "-test.run", "^TestVerifLineWriter$", "-test.timeout", "600s"],
+                     env=dict(os.environ, VERIF_OUT=lwout, VERIF_SEED=str(sd), VERIF_LW_LEN="3" if quick else "4"), cwd=wd)
+    if p.returncode != 0:
+        raise Inconclusive("line writer harness failed (exit %d):\n%s" % (p.returncode, p.stdout[-2000:]))
+    lw = [json.loads(l) for l in open(lwout)]
+    for t in lw:
+        t["steps"] = []
+    res["linewriter_cases"] = sum(len(t["events"]) for t in lw)
+    traces.extend(lw)
     herr = [t for t in traces if any(e["ev"] == "HarnessError" for e in t["events"])]
     if herr:
         raise Inconclusive("build harness error: %s" % herr[0]["events"][:1])
@@ -477,6 +499,10 @@ def pipeline(tier):
     return res
 
 
+def sig_of_c18(v):
+    return "%s|%s" % (v["prop"], v["what"])
+
+
 def sig_of(v):
     """Signature of a violation for the known-findings file: property, what, and the
     minimal scenario key (value class of the edited atom when that is what matters)."""
@@ -488,7 +514,7 @@ def check(prop, tier):
     res = vlib.FamilyRun("build", tier).get(lambda: pipeline(tier))
     if not res["design"]["ok"]:
         raise Inconclusive("TLC rejects the design spec Build (x) BuildMon (stamp=%s): %s" % (res["stamp"], res["design"]["errors"]))
-    viols = [dict(v, sig=sig_of(v)) for v in res["violations"] if v["prop"] == prop]
+    viols = [dict(v, sig=sig_of(v) if prop != "C18" else sig_of_c18(v)) for v in res["violations"] if v["prop"] == prop]
     level = "model_checking"
     cov = {
         "states": res["design"]["distinct"], "transitions": res["design"]["generated"],
@@ -498,6 +524,7 @@ def check(prop, tier):
         "tlc_generated_histories_replayed": res["tlc_histories"], "real_histories": res["n_traces"], "real_builds": res["builds"],
         "process_deaths_injected": res["crashes"], "crash_points_hit": res["crash_points_hit"],
         "events_evaluated_by_monitor": res["events"], "distinct_histories": res["distinct_histories"],
+        "linewriter_chunkings_executed": res.get("linewriter_cases", 0),
         "histories_compared_with_spec_prediction": res["drift_checked"], "design_drift": res["drift_count"],
         "design_drift_samples": res["drift"][:3], "child_errors": res["child_errors"], "exhaustive": False,
         "rule": "distinct = distinct (shape, value class, step sequence) histories executed on the real dawn with a fresh Load+Run per step; every history is evaluated by BuildMon",
